@@ -150,6 +150,7 @@ class EncNet(torch.nn.Module):
         super().__init__()
         self.enc = EncOp()
         self.relu = torch.nn.ReLU()
+        self.drop = torch.nn.Dropout(0.5)       # identity in evaluation mode
         self.reffn = reffn
         self.log = []
 
@@ -162,7 +163,7 @@ class EncNet(torch.nn.Module):
         for a in args:
             t = t + a.float().reshape(a.shape[0], -1).sum(dim=1)
         self.enc.t = t
-        y = self.relu(self.enc(X))
+        y = self.drop(self.relu(self.enc(X)))
         s = y.reshape(y.shape[0], -1).sum(dim=1, keepdim=True)
         return torch.cat([s, 2.0 * s, 3.0 * s], dim=1)
 
@@ -203,6 +204,8 @@ def run_enc(inp):
         net.log = []
         if reffn is not None:
             reffn.calls = []
+        if inp.get('train_mode'):
+            net.train()          # the model is handed over in training mode (e.g. between training steps)
         rec = {'ok': False, 'out': None, 'refs': None}
         try:
             same = sel == allsel     # the identity selection passes the caller's own tensor objects
@@ -250,7 +253,8 @@ class Scaled(torch.nn.Module):
         return self.net(X) * alpha
 
 
-ARCHS = ['conv-relu-pool-lin', 'flat-lin-tanh-lin', 'conv-elu-conv-relu-lin', 'conv-relu-lin-scaled']
+ARCHS = ['conv-relu-pool-lin', 'flat-lin-tanh-lin', 'conv-elu-conv-relu-lin', 'conv-relu-lin-scaled',
+         'conv-bn-relu-lin', 'flat-lin-relu-drop-lin']
 
 
 def build_net(arch, L, wseed):
@@ -264,17 +268,28 @@ def build_net(arch, L, wseed):
     elif arch == 'conv-elu-conv-relu-lin':
         net = nn.Sequential(nn.Conv1d(4, 4, 3, padding=1), nn.ELU(), nn.Conv1d(4, 3, 2), nn.ReLU(),
                             nn.Flatten(), nn.Linear(3 * (L - 1), 1))
+    elif arch == 'conv-bn-relu-lin':
+        net = nn.Sequential(nn.Conv1d(4, 4, 3), nn.BatchNorm1d(4), nn.ReLU(), nn.Dropout(0.3), nn.Flatten(),
+                            nn.Linear(4 * (L - 2), 2))
+    elif arch == 'flat-lin-relu-drop-lin':
+        net = nn.Sequential(nn.Flatten(), nn.Linear(4 * L, 6), nn.ReLU(), nn.Dropout(0.5), nn.Linear(6, 2))
     else:
         net = nn.Sequential(nn.Conv1d(4, 4, 3), nn.ReLU(), nn.Flatten(), nn.Linear(4 * (L - 2), 1))
     with torch.no_grad():
         for p in net.parameters():
             p.copy_(torch.round((torch.rand(p.shape, generator=g) * 2 - 1) * 8) / 8)
+        for m in net.modules():      # batch-norm with non-trivial affine parameters and running statistics
+            if isinstance(m, nn.BatchNorm1d):
+                m.weight.copy_(torch.round(torch.rand(m.weight.shape, generator=g) * 8 + 4) / 8)
+                m.running_mean.copy_(torch.round((torch.rand(m.running_mean.shape, generator=g) * 2 - 1) * 8) / 8)
+                m.running_var.copy_(torch.round(torch.rand(m.running_var.shape, generator=g) * 8 + 2) / 4)
     if arch == 'conv-relu-lin-scaled':
         net = Scaled(net)
     return net
 
 
-N_OUT = {'conv-relu-pool-lin': 2, 'flat-lin-tanh-lin': 2, 'conv-elu-conv-relu-lin': 1, 'conv-relu-lin-scaled': 1}
+N_OUT = {'conv-relu-pool-lin': 2, 'flat-lin-tanh-lin': 2, 'conv-elu-conv-relu-lin': 1, 'conv-relu-lin-scaled': 1,
+         'conv-bn-relu-lin': 2, 'flat-lin-relu-drop-lin': 2}
 
 
 def real_inputs(inp):
@@ -318,7 +333,8 @@ def plain_gradient(module, grad_input, grad_output):
     return grad_input
 
 
-OVERRIDE = {'conv-relu-pool-lin': torch.nn.ReLU, 'flat-lin-tanh-lin': torch.nn.Tanh,
+OVERRIDE = {'conv-bn-relu-lin': torch.nn.ReLU, 'flat-lin-relu-drop-lin': torch.nn.ReLU,
+            'conv-relu-pool-lin': torch.nn.ReLU, 'flat-lin-tanh-lin': torch.nn.Tanh,
             'conv-elu-conv-relu-lin': torch.nn.ELU, 'conv-relu-lin-scaled': torch.nn.ReLU}
 
 
@@ -343,6 +359,8 @@ def run_real(inp):
     def call(sel, b, ret, cls=0, fresh=False, v=None):
         if fresh:
             net[0] = make()
+        if inp.get('train_mode'):
+            net[0].train()       # handed over in training mode: deep_lift_shap must put it in eval mode
         same = sel == allx
         v = dict(v or {}, b=b)
         kw = call_options(inp, v, dict(return_references=ret, warning_threshold=1e30))
@@ -510,11 +528,12 @@ def nontrivial(inp, out):
 def hist_key(inp, out):
     ok = all(r['ok'] for r in out.get('runs', [])) and bool(out.get('runs'))
     if inp['kind'] == 'enc':
-        return 'enc/%s/%s/%s/args%d/%s/%s' % (inp['mode'], 'tensor' if inp['seed'] is None else 'function-' + inp.get('reffn', 'row'),
+        return 'enc/%s/%s/%s/%s/args%d/%s/%s' % ('train' if inp.get('train_mode') else 'eval', inp['mode'], 'tensor' if inp['seed'] is None else 'function-' + inp.get('reffn', 'row'),
                                               'refs' if inp['ret'] else 'norefs', len(inp['args']),
                                               inp.get('family', '?'), 'ok' if ok else 'raise')
-    return 'real/%s/%s/%s/%s/%s/%s' % (inp['arch'], inp.get('dtype', 'f32'), inp.get('reffn', 'dinuc'), inp['mode'],
-                                       inp.get('family', '?'), 'ok' if ok else 'raise')
+    return 'real/%s/%s/%s/%s/%s/%s/%s' % (inp['arch'], inp.get('dtype', 'f32'), inp.get('reffn', 'dinuc'), inp['mode'],
+                                          'train' if inp.get('train_mode') else 'eval', inp.get('family', '?'),
+                                          'ok' if ok else 'raise')
 
 
 # ----------------------------------------------------------------------------------------
@@ -552,6 +571,7 @@ def enc_base(rng, N, ns, mode, source, ret, nargs):
     # parameter forms: target column, args as list, hypothetical=True together with raw_outputs,
     # numpy integers for random_state / n_shuffles, an (ignored) integer random_state with a tensor
     inp.update(target=rng.choice([0, 0, 1, 2, -1]), args_list=rng.random() < 0.3, raw_hyp=rng.random() < 0.3,
+               train_mode=rng.random() < 0.4,
                seedtype=rng.choice(['int', 'int', 'np64']), nstype=rng.choice(['int', 'int', 'np64', 'np32']),
                tensor_seed=rng.choice([None, None, 3]))
     return inp
@@ -680,7 +700,7 @@ def gen_enc(tier, rng):
 
 def gen_real(tier, rng):
     quick = tier != 'thorough'
-    count = 12 if quick else 120
+    count = 18 if quick else 120
     for t in range(count):
         arch = ARCHS[t % len(ARCHS)]
         N = rng.randint(2, 4)
@@ -691,7 +711,8 @@ def gen_real(tier, rng):
                'ret': rng.random() < 0.7, 'reffn': ['dinuc', 'shuffle', 'tensor'][(t // 2) % 3],
                'dtype': 'f64' if t % 5 == 4 else 'f32',
                'degenerate': rng.choice([[], ['repeat'], ['homo', 'repeat'], [None, 'homo']]),
-               'seedtype': rng.choice(['int', 'np64']), 'raw_hyp': rng.random() < 0.3}
+               'seedtype': rng.choice(['int', 'np64']), 'raw_hyp': rng.random() < 0.3,
+               'train_mode': arch in ('conv-bn-relu-lin', 'flat-lin-relu-drop-lin') or rng.random() < 0.3}
         inp['target'] = rng.choice([0, -1] + list(range(N_OUT[arch])))
         vs = batch_family(rng, N, ns)
         if quick and len(vs) > 14:
